@@ -67,6 +67,129 @@ theorem zip_refines (it : Deque.Iter) (q1 q2 : Queue) (f1 f2 : QueueSpec.Fifo) (
   rw [e1, e2] at a1 a2 a3 b1 b2 b3 b4
   exact ⟨⟨a1, a2, a3, a4⟩, ⟨b1, b2, b3, b4, b7⟩⟩
 
+/-! ## iterator and zip-iterator programs of the adapter -/
+
+inductive QOp where
+  | next | replace (x : Nat)
+
+/-- one queue-iterator call on the model -/
+def stepQI (it : Deque.Iter) (q : Queue) (m : Mem) : QOp → (Option Stat × Option Nat) × Deque.Iter × Queue × Mem
+  | .next => let r := Queue.iterNext it q m; ((some r.1, r.2.1), r.2.2.1, q, r.2.2.2)
+  | .replace x => let r := Queue.iterReplace it q x m; ((some r.1, r.2.1), it, r.2.2.1, r.2.2.2)
+
+/-- the same call on the ideal cursor over the iteration view -/
+def stepQC (c : DequeSpec.Cur) (v : List Nat) : QOp → (Option Stat × Option Nat) × DequeSpec.Cur × List Nat
+  | .next => let r := DequeSpec.curNext v c; ((some r.1, r.2.1), r.2.2, v)
+  | .replace x => let r := DequeSpec.curReplace v c x; ((some r.1, r.2.1), c, r.2.2)
+
+def runQI (it : Deque.Iter) (q : Queue) (m : Mem) : List QOp → List (Option Stat × Option Nat) × Deque.Iter × Queue × Mem
+  | [] => ([], it, q, m)
+  | op :: ops =>
+    let r := stepQI it q m op
+    let rs := runQI r.2.1 r.2.2.1 r.2.2.2 ops
+    (r.1 :: rs.1, rs.2.1, rs.2.2.1, rs.2.2.2)
+
+def runQC (c : DequeSpec.Cur) (v : List Nat) : List QOp → List (Option Stat × Option Nat) × DequeSpec.Cur × List Nat
+  | [] => ([], c, v)
+  | op :: ops => let r := stepQC c v op; let rs := runQC r.2.1 r.2.2 ops; (r.1 :: rs.1, rs.2.1, rs.2.2)
+
+/-- **program_refines (queue iterator)**: any program of `next` / `replace` calls, from any cursor over any
+ring layout, returns what the ideal cursor over the iteration view returns; the queue's content follows
+the ideal view, the invariant holds, the ledger is untouched (the adapter's iterator never allocates, so
+there is nothing to refuse and nothing is partial) -/
+theorem program_refines (ops : List QOp) (it : Deque.Iter) (q : Queue) (m : Mem) (hi : q.Inv) :
+    (runQI it q m ops).1 = (runQC it.cur q.abs ops).1 ∧ (runQI it q m ops).2.1.cur = (runQC it.cur q.abs ops).2.1 ∧
+    (runQI it q m ops).2.2.1.abs = (runQC it.cur q.abs ops).2.2 ∧ (runQI it q m ops).2.2.1.Inv ∧
+    (runQI it q m ops).2.2.2 = m := by
+  induction ops generalizing it q m with
+  | nil => exact ⟨rfl, rfl, rfl, hi, rfl⟩
+  | cons op ops ih =>
+    have hsim : Sim q ⟨q.abs.reverse⟩ := ⟨hi, by simp⟩
+    have hview : (⟨q.abs.reverse⟩ : QueueSpec.Fifo).view = q.abs := by simp [QueueSpec.Fifo.view]
+    cases op with
+    | next =>
+      obtain ⟨a1, a2, a3, a4⟩ := next_refines it q _ m hsim
+      rw [hview] at a1 a2 a3
+      obtain ⟨r1, r2, r3, r4, r5⟩ := ih (Queue.iterNext it q m).2.2.1 q (Queue.iterNext it q m).2.2.2 hi
+      simp only [runQI, runQC, stepQI, stepQC]
+      rw [a3] at r1 r2 r3
+      exact ⟨by rw [a1, a2, r1], r2, r3, r4, r5.trans a4⟩
+    | replace x =>
+      obtain ⟨a1, a2, a3, a4, a5⟩ := replace_refines it q _ x m hsim
+      rw [hview] at a1 a2 a3
+      obtain ⟨r1, r2, r3, r4, r5⟩ := ih it (Queue.iterReplace it q x m).2.2.1 (Queue.iterReplace it q x m).2.2.2 a4
+      simp only [runQI, runQC, stepQI, stepQC]
+      rw [a3] at r1 r2 r3
+      exact ⟨by rw [a1, a2, r1], r2, r3, r4, r5.trans a5⟩
+
+inductive QZOp where
+  | next | replace (x y : Nat)
+
+def stepQZ (it : Deque.Iter) (q1 q2 : Queue) (m : Mem) :
+    QZOp → (Option Stat × Option (Nat × Nat)) × Deque.Iter × Queue × Queue × Mem
+  | .next => let r := Queue.zipNext it q1 q2 m; ((some r.1, r.2.1), r.2.2.1, q1, q2, r.2.2.2)
+  | .replace x y => let r := Queue.zipReplace it q1 q2 x y m; ((some r.1, r.2.1), it, r.2.2.1, r.2.2.2.1, r.2.2.2.2)
+
+def stepQZC (c : DequeSpec.Cur) (v1 v2 : List Nat) :
+    QZOp → (Option Stat × Option (Nat × Nat)) × DequeSpec.Cur × List Nat × List Nat
+  | .next => let r := DequeSpec.zipNext v1 v2 c; ((some r.1, r.2.1), r.2.2, v1, v2)
+  | .replace x y => let r := DequeSpec.zipReplace v1 v2 c x y; ((some r.1, r.2.1), c, r.2.2.1, r.2.2.2)
+
+def runQZ (it : Deque.Iter) (q1 q2 : Queue) (m : Mem) :
+    List QZOp → List (Option Stat × Option (Nat × Nat)) × Deque.Iter × Queue × Queue × Mem
+  | [] => ([], it, q1, q2, m)
+  | op :: ops =>
+    let r := stepQZ it q1 q2 m op
+    let rs := runQZ r.2.1 r.2.2.1 r.2.2.2.1 r.2.2.2.2 ops
+    (r.1 :: rs.1, rs.2.1, rs.2.2.1, rs.2.2.2.1, rs.2.2.2.2)
+
+def runQZC (c : DequeSpec.Cur) (v1 v2 : List Nat) :
+    List QZOp → List (Option Stat × Option (Nat × Nat)) × DequeSpec.Cur × List Nat × List Nat
+  | [] => ([], c, v1, v2)
+  | op :: ops =>
+    let r := stepQZC c v1 v2 op
+    let rs := runQZC r.2.1 r.2.2.1 r.2.2.2 ops
+    (r.1 :: rs.1, rs.2.1, rs.2.2.1, rs.2.2.2)
+
+/-- **zip program_refines (two queues)**: any program of zip `next` / `replace` calls over two queues in any
+ring layouts refines the ideal pair cursor over the two iteration views: lock-step, stops at the shorter
+queue, `replace` acts on the pair yielded last; both invariants and the ledger are intact -/
+theorem zip_program_refines (ops : List QZOp) (it : Deque.Iter) (q1 q2 : Queue) (m : Mem) (h1 : q1.Inv) (h2 : q2.Inv) :
+    (runQZ it q1 q2 m ops).1 = (runQZC it.cur q1.abs q2.abs ops).1 ∧
+    (runQZ it q1 q2 m ops).2.1.cur = (runQZC it.cur q1.abs q2.abs ops).2.1 ∧
+    (runQZ it q1 q2 m ops).2.2.1.abs = (runQZC it.cur q1.abs q2.abs ops).2.2.1 ∧
+    (runQZ it q1 q2 m ops).2.2.2.1.abs = (runQZC it.cur q1.abs q2.abs ops).2.2.2 ∧
+    (runQZ it q1 q2 m ops).2.2.1.Inv ∧ (runQZ it q1 q2 m ops).2.2.2.1.Inv ∧ (runQZ it q1 q2 m ops).2.2.2.2 = m := by
+  induction ops generalizing it q1 q2 m with
+  | nil => exact ⟨rfl, rfl, rfl, rfl, h1, h2, rfl⟩
+  | cons op ops ih =>
+    cases op with
+    | next =>
+      obtain ⟨a1, a2, a3, a4⟩ := Deque.zipNext_spec it q1.d q2.d m h1.1 h2.1
+      obtain ⟨r1, r2, r3, r4, r5, r6, r7⟩ := ih (Queue.zipNext it q1 q2 m).2.2.1 q1 q2 (Queue.zipNext it q1 q2 m).2.2.2 h1 h2
+      simp only [runQZ, runQZC, stepQZ, stepQZC]
+      have e1 : (Queue.zipNext it q1 q2 m).1 = (DequeSpec.zipNext q1.abs q2.abs it.cur).1 := a1
+      have e2 : (Queue.zipNext it q1 q2 m).2.1 = (DequeSpec.zipNext q1.abs q2.abs it.cur).2.1 := a2
+      have e3 : (Queue.zipNext it q1 q2 m).2.2.1.cur = (DequeSpec.zipNext q1.abs q2.abs it.cur).2.2 := a3
+      have e4 : (Queue.zipNext it q1 q2 m).2.2.2 = m := a4
+      rw [e3] at r1 r2 r3 r4
+      exact ⟨by rw [e1, e2, r1], r2, r3, r4, r5, r6, r7.trans e4⟩
+    | replace x y =>
+      obtain ⟨a1, a2, a3, a4, a5, a6, a7⟩ := Deque.zipReplace_spec it q1.d q2.d x y m h1.1 h2.1
+      obtain ⟨t1, t2⟩ := Deque.zipReplace_triple it q1.d q2.d x y m
+      have i1 : (Queue.zipReplace it q1 q2 x y m).2.2.1.Inv := ⟨a5, t1.trans h1.2⟩
+      have i2 : (Queue.zipReplace it q1 q2 x y m).2.2.2.1.Inv := ⟨a6, t2.trans h2.2⟩
+      obtain ⟨r1, r2, r3, r4, r5, r6, r7⟩ := ih it (Queue.zipReplace it q1 q2 x y m).2.2.1
+        (Queue.zipReplace it q1 q2 x y m).2.2.2.1 (Queue.zipReplace it q1 q2 x y m).2.2.2.2 i1 i2
+      simp only [runQZ, runQZC, stepQZ, stepQZC]
+      have e1 : (Queue.zipReplace it q1 q2 x y m).1 = (DequeSpec.zipReplace q1.abs q2.abs it.cur x y).1 := a1
+      have e2 : (Queue.zipReplace it q1 q2 x y m).2.1 = (DequeSpec.zipReplace q1.abs q2.abs it.cur x y).2.1 := a2
+      have e3 : (Queue.zipReplace it q1 q2 x y m).2.2.1.abs = (DequeSpec.zipReplace q1.abs q2.abs it.cur x y).2.2.1 := a3
+      have e4 : (Queue.zipReplace it q1 q2 x y m).2.2.2.1.abs = (DequeSpec.zipReplace q1.abs q2.abs it.cur x y).2.2.2 := a4
+      have e5 : (Queue.zipReplace it q1 q2 x y m).2.2.2.2 = m := a7
+      rw [e3, e4] at r1 r2 r3 r4
+      exact ⟨by rw [e1, e2, r1], r2, r3, r4, r5, r6, r7.trans e5⟩
+
 /-- non-vacuity: a wrapped, exactly full ring is traversed completely, newest first -/
 example : (C07Deque.drain (Deque.mk 4 4 3 3 [12, 13, 14, 11] .conf) 4 {} {}).1 = [11, 12, 13, 14] ∧
     Sim ⟨Deque.mk 4 4 3 3 [12, 13, 14, 11] .conf, .conf⟩ ⟨[14, 13, 12, 11]⟩ := by
